@@ -94,7 +94,7 @@ pub fn run_one(ctx: &mut Ctx, target: &str, prop: &str, data: &[u8]) {
             "C12" => parsers::check_c12(ctx, data),
             "C15" => {
                 if data.len() >= 2 {
-                    fci_sdes::check_c15(ctx, data[0] & 1 == 1, data[1], &data[2..]);
+                    fci_sdes::check_c15_padded(ctx, data[0] & 1 == 1, data[1], &data[2..], if data[0] & 2 != 0 { (data[0] >> 2) * 4 } else { 0 });
                 }
                 fci_sdes::check_c15_direct(ctx, data);
             }
